@@ -141,6 +141,31 @@ func c20CheckFault(t vh.Fataler, rec *vh.Rec, root string, c c20Case) {
 			t.Fatalf("harness problem: store %d: %s", i, htrouble)
 		}
 
+		// the concurrent reader: the file exists at every instant and is never seen half-way
+		if o.ReaderPolls > 0 {
+			classSet["reader-polled"] = true
+			if o.ReaderReads > 0 {
+				classSet["reader-read-during-store"] = true
+			}
+			if o.ReaderMissing > 0 && v == nil {
+				v = &viol{"reader:missing", fmt.Sprintf("during store %d (%v, result %q) a concurrent reader found no ClientConf file at all at %d of %d polls (the file existed before the store)",
+					i, op, o.Err, o.ReaderMissing, o.ReaderPolls)}
+			}
+			if o.ReaderOdd > 0 && v == nil {
+				v = &viol{"reader:partial", fmt.Sprintf("during store %d (%v, result %q) a concurrent reader read %s (%d complete reads)",
+					i, op, o.Err, o.ReaderOddWhat, o.ReaderReads)}
+			}
+		}
+		if op.AgeH > 0 {
+			classSet["existing-file-back-dated"] = true
+		}
+		if op.Exact > 0 {
+			if sz := proto.Size(c20ConfFor(i, op)); sz != op.Exact && op.Fault != "marshal" {
+				t.Fatalf("harness problem: configuration %d is %d bytes, not the requested %d", i, sz, op.Exact)
+			}
+			classSet["exact-size-store"] = true
+		}
+
 		// judgeReload: the fault is lifted and the directory was loaded the way a restarting client
 		// loads it. What that client then has in effect, and the file it leaves, must be the stored
 		// configuration — or, after a failed store, that store's complete new configuration — never
@@ -186,6 +211,8 @@ func c20CheckFault(t vh.Fataler, rec *vh.Rec, root string, c c20Case) {
 
 		if o.Err == "" {
 			// ---- the store reported success
+			// (a reader violation found above is reported after the file itself has been judged, so that
+			// the more specific key wins)
 			switch op.Fault {
 			case "marshal":
 				// The replacement cannot be serialised into a file the client can load again, so there is
@@ -369,7 +396,7 @@ func c20CheckFault(t vh.Fataler, rec *vh.Rec, root string, c c20Case) {
 	} else if c.XDev {
 		classes = append(classes, "xdev-unavailable")
 	}
-	rec.Case(fired > 0, vh.Digest(c), c, classes...)
+	rec.Case(fired > 0 || classSet["exact-size-store"], vh.Digest(c), c, classes...)
 	if v != nil {
 		rec.Violation(t, v.key, c, "%s; sequence=%v init=%dKiB", v.msg, c.Ops, c.InitKB)
 	} else if spurious != "" {
@@ -386,9 +413,12 @@ func c20StrayNote(rec *vh.Rec) {
 	}
 }
 
+// encoded sizes at which block-wise writers, buffers and length prefixes change behaviour
+var c20Boundaries = []int{4096, 32768, 65536, 131072, 1 << 20}
+
 var c20FaultRequired = []string{
 	"fault-fired:marshal", "fault-fired:vanish", "fault-fired:fsize", "fault-fired:occupied",
-	"rollback-checked", "disk-still-previous", "fault-fired-multiMB", "rollback-accessors-checked", "reload-checked",
+	"rollback-checked", "disk-still-previous", "fault-fired-multiMB", "rollback-accessors-checked", "reload-checked", "reader-polled", "existing-file-back-dated",
 }
 
 // Every fault × operation × size combination, once on a small and once on a multi-megabyte stored
@@ -434,8 +464,9 @@ func TestVerif_C20_faultgrid(t *testing.T) {
 						continue
 					}
 					healthy := c20Op{Kind: kind, KB: kb}
+					ageH := []int{0, 2, 0, 48}[(idx/2)%4]
 					c := c20Case{InitKB: initKB, KillAt: -1, Ops: []c20Op{
-						{Kind: kind, KB: kb, Fault: f.fault, Limit: f.limit},
+						{Kind: kind, KB: kb, Fault: f.fault, Limit: f.limit, AgeH: ageH},
 						{Kind: "gen"},
 						healthy,
 					}}
@@ -460,6 +491,12 @@ func c20GenFault(rt *rapid.T) c20Case {
 		if bigLeft > 0 && (op.Kind == "conf" || op.Kind == "decoys" || op.Kind == "subnets") && rapid.IntRange(0, 2).Draw(rt, "bigHere") == 0 {
 			op.KB = rapid.SampledFrom(bigSizes).Draw(rt, "kb")
 			bigLeft--
+		}
+		if op.Kind == "conf" && op.KB == 0 && rapid.IntRange(0, 5).Draw(rt, "exactP") == 0 {
+			op.Exact = rapid.SampledFrom(c20Boundaries).Draw(rt, "boundary") + rapid.IntRange(-1, 1).Draw(rt, "delta")
+		}
+		if rapid.IntRange(0, 3).Draw(rt, "oldP") == 0 {
+			op.AgeH = rapid.SampledFrom([]int{2, 48}).Draw(rt, "ageH")
 		}
 		if rapid.Bool().Draw(rt, "faulty") {
 			fs := []string{"vanish", "occupied", "fsize", "fsize"}
@@ -496,4 +533,41 @@ func TestVerif_C20_faults(t *testing.T) {
 		c := c20GenFault(rt)
 		c20CheckFault(rt, rec, root, c)
 	})
+}
+
+// Healthy stores of configurations whose encoded size sits exactly on, one below and one above the
+// usual buffer / block sizes: the published file must be the complete new configuration.
+func TestVerif_C20_sizes(t *testing.T) {
+	rec := vh.NewRec("C20", "sizes", "enumeration: SetClientConf of a configuration padded to an exact encoded size B-1, B, B+1 for B in {4096, 8192, 16384, 32768, 65536, 131072, 262144, 524288, 1 MiB (thorough: 2, 3, 4, 8 MiB and 3*64 KiB, 5*64 KiB)}, followed by SetGeneration (same size) and a second exact-size SetClientConf, on a fresh or a back-dated existing file; healthy directory, concurrent reader, restart check; after each store the file must parse and be proto.Equal to the stored configuration. Non-trivial = every case (all stores hit their exact size, asserted); distinct = distinct sequence")
+	defer rec.Flush()
+	rec.Require("exact-size-store", "store-ok", "reader-polled")
+	root := t.TempDir()
+	if p := vh.ReplayFile(); p != "" {
+		var c c20Case
+		if _, _, err := vh.LoadReplay(p, &c); err != nil {
+			t.Fatal(err)
+		}
+		c20CheckFault(t, rec, root, c)
+		return
+	}
+	rec.SetExhaustive(true)
+	bounds := []int{4096, 8192, 16384, 32768, 65536, 131072, 262144, 524288, 1 << 20}
+	if vh.Thorough() {
+		bounds = append(bounds, 3*65536, 5*65536, 2<<20, 3<<20, 4<<20, 8<<20)
+	}
+	idx := 0
+	for _, b := range bounds {
+		for _, delta := range []int{-1, 0, 1} {
+			idx++
+			if !vh.Mine(idx) {
+				continue
+			}
+			c := c20Case{KillAt: -1, Ops: []c20Op{
+				{Kind: "conf", Exact: b + delta, AgeH: []int{0, 2, 48}[idx%3]},
+				{Kind: "gen"},
+				{Kind: "conf", Exact: b + delta},
+			}}
+			c20CheckFault(t, rec, root, c)
+		}
+	}
 }
